@@ -194,7 +194,7 @@ impl<T: Channel> Sender<T> {
         let mut state = self.shared.state.lock().unwrap();
 
         #[cfg(emit_rs_emit_verif)]
-        let verif_truncated = state.next_batch.channel.len() >= self.max_capacity;
+        let mut verif_truncated = false;
 
         // If the channel is full then drop it; this prevents OOMing
         // when the destination is unavailable. We don't notify the batch
@@ -202,6 +202,11 @@ impl<T: Channel> Sender<T> {
         if state.next_batch.channel.len() >= self.max_capacity {
             state.next_batch.channel.clear();
             self.shared.metrics.queue_full_truncated.increment();
+
+            #[cfg(emit_rs_emit_verif)]
+            {
+                verif_truncated = true;
+            }
         }
 
         // If the channel is closed then return without adding the message
